@@ -966,6 +966,10 @@ func (n *node) Kill(pid gen.PID) error {
 	case int32(gen.ProcessStateWaitResponse), int32(gen.ProcessStateRunning):
 		// do not unregister process until its goroutine stopped
 		return nil
+	case int32(gen.ProcessStateZombee):
+		// already killed: either the first Kill call or the process goroutine
+		// (once its current callback returns) finalizes the termination
+		return nil
 	case int32(gen.ProcessStateTerminated):
 		atomic.StoreInt32(&p.state, int32(gen.ProcessStateTerminated))
 		return nil
